@@ -6,13 +6,14 @@ from .. import feccat
 from . import c01
 
 ID = "C03"
-KINDS = {"U": ["spanMin_sound", "reported_parameters", "min_distance", "cyclic_structure", "DistInfo.info_bound (min_distance_large)"],
+KINDS = {"U": ["spanMin_sound", "reported_parameters", "min_distance", "exact_distance_attained", "cyclic_structure", "DistInfo.info_bound (min_distance_large)",
+               "BCHAbs.bch_bound / BCHBound.bch_min_distance (min_distance_bch)"],
          "K": ["instances_ok (part0_ok .. part7_ok)", "known_bad_witness", "sphere_packing", "info_instances_ok (info0_ok .. info5_ok)",
-               "info_instances_in_catalogue"]}
-PARTIAL = ["minimum distance is decided in Lean for instances with k <= 13 (full enumeration) and for larger ones whose information-set "
-           "enumeration fits the kernel budget (Hamming mu=5,6, RM(2..4,5), BCH n=31, BCH(63,57)); the remaining ones (listed in evidence "
-           "`distance_not_decided_in_lean`) are covered by the search oracle (enumeration k<=20 / MacWilliams n-k<=20) only",
-           "'consist of the multiples of g': proved as every generator row is a multiple of g, deg g = n-k, g | X^n+1"]
+               "info_instances_in_catalogue", "bch_ok", "bch_instances_in_catalogue"]}
+PARTIAL = ["'consist of the multiples of g': proved as every generator row is a multiple of g, deg g = n-k, g | X^n+1",
+           "finding F-RS-DIST (RS-style codes advertise a design distance their binary construction does not have): witness theorem known_bad_witness"]
+NOTE_DIST = ("minimum distance is decided in Lean for EVERY catalogue instance: full enumeration (k <= 13 where that is cheapest), information-set certificate "
+             "(DistInfo.info_bound), or the BCH bound (BCHBound.bch_min_distance); evidence lists which route each instance took and `distance_not_decided_in_lean` (empty)")
 RULE = "enc lines on all messages (k <= 8 quick / 12 thorough) tie the set of words to the published G; non-trivial = non-zero message"
 ASSUMPTIONS = c01.ASSUMPTIONS + ["advertised values are read through code_length, code_dimension, minimum_distance / minimum_distance(), delta, generator_poly"]
 NPARTS = 8
@@ -187,7 +188,13 @@ def data(ctx=None):
         pre = dict(n=n, k=k, G=Gm, advD=advD)
         ic = info_cert(pre) if advD and not known_bad else None
         decided = k <= KDEC and not (ic and ic["leaves"] * (advD + 2) < (2 ** k) * 4)
-        _DATA[name] = dict(c=c, info=ic, n=n, k=k, r=H.shape[0], G=Gm, HT=feccat.masks(H.T) if H.shape[1] == n else [0] * n, advN=advN, advK=advK, advD=advD,
+        # BCH codes in polynomial coefficient order: the BCH bound (Proofs/BCHBound.lean) decides the design distance for any size
+        bch = None
+        if c.family == "bch" and cyc and gpoly and rot == 0 and not rev and advD >= 2 and not known_bad:
+            fld = c.enc._field
+            bch = dict(m=int(c.params["mu"]), P=int(fld.modulus.value), gpoly=gpoly, delta=advD, R=feccat.masks(R))
+            decided = False
+        _DATA[name] = dict(c=c, info=ic, bch=bch, n=n, k=k, r=H.shape[0], G=Gm, HT=feccat.masks(H.T) if H.shape[1] == n else [0] * n, advN=advN, advK=advK, advD=advD,
                            exact=exact, wit=wit, decided=decided, cyclic=cyc, gpoly=gpoly, rot=rot, rev=rev, perfect=perfect, knownBad=known_bad,
                            nameN=nameN, nameK=nameK, true_d=true_d)
     return _DATA
@@ -221,6 +228,8 @@ def extract(ctx):
     by_info, nd = [], []
     cand = []
     for name, d in data(ctx).items():
+        if d["bch"]:
+            continue
         if d["advD"] and not d["decided"] and not d["knownBad"]:
             ic = d["info"]
             if ic and ic["leaves"] <= INFO_LEAVES:
@@ -237,6 +246,15 @@ def extract(ctx):
         files["C03I%d" % j] = ("-- generated from /repo: information-set certificates for codes with k > %d (part %d)\n"
                                "import Kaira.Dist\nopen Kaira.Dist\nnamespace Generated.C03I%d\ndef part : List InfoInst := [\n" % (KDEC, j, j)
                                + ",\n".join(iparts[j]) + "]\nend Generated.C03I%d\n" % j)
+    bl = []
+    for name, d in data(ctx).items():
+        if d["bch"]:
+            q = d["bch"]
+            bl.append('  { name := "%s", n := %d, k := %d, G := %s, R := %s, m := %d, P := %d, gpoly := %d, delta := %d }'
+                      % (name, d["n"], d["k"], lst(d["G"]), lst(q["R"]), q["m"], q["P"], q["gpoly"], q["delta"]))
+    files["C03B"] = ("-- generated from /repo: BCH instances (generator matrix, right inverse, field modulus, generator polynomial, design distance)\n"
+                     "import Kaira.Dist\nopen Kaira.Dist\nnamespace Generated.C03B\ndef instances : List BchInst := [\n" + ",\n".join(bl) + "]\nend Generated.C03B\n")
+    ctx.extra["distance_decided_by_bch_bound"] = sorted(n for n, d in data(ctx).items() if d["bch"])
     ctx.extra["distance_decided_by_information_set_bound"] = sorted(by_info)
     ctx.extra["distance_not_decided_in_lean"] = nd
     return files
